@@ -34,6 +34,7 @@ static int process_data(xfrm_stream_t *stream, const void *in, sqfs_u32 in_size,
 			int flush_mode)
 {
 	xfrm_stream_bzip2_t *bzip2 = (xfrm_stream_bzip2_t *)stream;
+	bool finishing;
 	sqfs_u32 diff;
 	int ret;
 
@@ -54,7 +55,10 @@ static int process_data(xfrm_stream_t *stream, const void *in, sqfs_u32 in_size,
 	if (flush_mode < 0 || flush_mode >= XFRM_STREAM_FLUSH_COUNT)
 		flush_mode = XFRM_STREAM_FLUSH_NONE;
 
-	while (in_size > 0 && out_size > 0) {
+	/* keep going without input until the compressor has emitted its tail */
+	finishing = bzip2->compress && flush_mode == XFRM_STREAM_FLUSH_FULL;
+
+	while ((in_size > 0 || finishing) && out_size > 0) {
 		bzip2->strm.next_in = (char *)in;
 		bzip2->strm.avail_in = in_size;
 
